@@ -21,6 +21,8 @@ RULE_MODULES = {
     'HB': 'rules.p_hb',
     'RESET': 'rules.p_reset',
     'RF14': 'rules.rf14_elem',
+    'RF7': 'rules.rf7_narrow',
+    'OBJWR': 'rules.p_objwrite',
 }
 
 
@@ -31,6 +33,10 @@ def run_rule(rule, ctx, tier):
     if rule in done:
         return done[rule]
     mod = importlib.import_module(RULE_MODULES[rule])
+    # service modules of a service that is compiled out in this configuration have nothing to analyse
+    if (rule == 'LSS' and not getattr(ctx.m, 'has_lss', True)) or (rule == 'CSDO' and not getattr(ctx.m, 'has_csdo', True)):
+        done[rule] = None
+        return None
     ctx.tier = tier
     done[rule] = mod.run(ctx)
     return done[rule]
@@ -38,7 +44,7 @@ def run_rule(rule, ctx, tier):
 
 PROPERTIES = {
     'C01': {
-        'rules': ['RF6', 'RF5', 'SDO', 'TMR', 'CSDO', 'SDO2'],
+        'rules': ['RF6', 'RF5', 'SDO', 'TMR', 'CSDO', 'SDO2', 'RF7'],
         'technique': 'interval abstract interpretation (widening/narrowing, guard refinement, parameter and field '
                      'invariants) for every constant-extent subscript; non-null dataflow with bounded disjunction for every '
                      'dereference of a nullable location; guard-before-use for SDO continuation handlers',
@@ -51,7 +57,7 @@ PROPERTIES = {
                        'frames, undefined arithmetic, driver-fault sequences',
     },
     'C06': {
-        'rules': ['DICT'],
+        'rules': ['DICT', 'RF7'],
         'technique': 'shape rules over the CFG (init walk, canonical binary-search form with unsigned masked comparisons), '
                      'decision tables of the typed accessors and integer type functions over flag/width classes, '
                      'conversion check on the buffer length path, guard folding of the domain length clip',
@@ -78,14 +84,14 @@ PROPERTIES = {
         'not_decided': 'interleaving semantics under preemption',
     },
     'C13': {
-        'rules': ['RF5', 'RF6', 'PDO', 'RF14'],
+        'rules': ['RF5', 'RF6', 'PDO', 'RF14', 'HB'],
         'technique': 'decision-table extraction (CORPdoCheck, CORPdoRx, layout with dummy entries), must-facts (NMT gate, pending marker), registration-bit typestate, interval analysis of mapping-table subscripts, non-null dataflow on the synchronous-RPDO table',
         'explanation': 'CORPdoCheck matches only enabled RPDOs with an equal identifier and searches past disabled channels; CORPdoRx: application veto respected, asynchronous written at once, synchronous buffered; synchronous application only in OPERATIONAL and only for a pending frame; payload layout: producer CORPdoGetMap and consumer CORPdoWrite agree on dummy entries (little-endian field starts after the dummy width); SYNC registration typestate; RF6 on CO_RPDO.Map/Size and the SYNC tables; RF5 on Sync.RPdo[i]; element consistency.',
         'not_decided': 'field values written',
         'not_decided': 'values written by user-defined object types',
     },
     'C02': {
-        'rules': ['SDO2', 'SDO', 'RF14'],
+        'rules': ['SDO2', 'SDO', 'RF14', 'RF7'],
         'exhaustive': False,
         'technique': 'response-template folding (RF13) of the five download handlers over input classes, toggle / sequence '
                      'guard tables, constant folding of the per-server buffer offset, must-write vs upward-exposed-read '
@@ -98,7 +104,7 @@ PROPERTIES = {
         'not_decided': 'object == payload for every size and segmentation (data movement through counters)',
     },
     'C03': {
-        'rules': ['SDO2', 'RF14'],
+        'rules': ['SDO2', 'RF14', 'RF7'],
         'exhaustive': False,
         'technique': 'response-template folding (RF13) of the upload handlers, call-graph effect rule, must-write vs '
                      'upward-exposed-read sets across frames',
@@ -109,7 +115,7 @@ PROPERTIES = {
         'not_decided': 'reassembled bytes for every acknowledge pattern (go-back-N arithmetic)',
     },
     'C04': {
-        'rules': ['SDO', 'RF14', 'SDO2'],
+        'rules': ['SDO', 'RF14', 'SDO2', 'OBJWR'],
         'exhaustive': True,
         'technique': 'decision-table extraction by constant folding of the dispatcher guards over all 256 command '
                      'bytes x 5 block states, verdict tables, return-path discipline, must-pass-through',
@@ -122,7 +128,7 @@ PROPERTIES = {
         'not_decided': 'side-effect freedom of user-supplied type functions; response payload values',
     },
     'C05': {
-        'rules': ['SDO', 'SDO2', 'RF14'],
+        'rules': ['SDO', 'SDO2', 'RF14', 'OBJWR'],
         'exhaustive': True,
         'technique': 'decision-table extraction, must-store on all paths, guard-before-use dataflow',
         'explanation': 'Necessary conditions for "no history wedges a server": client abort 80h reaches the reset '
@@ -133,7 +139,7 @@ PROPERTIES = {
         'not_decided': 'AG EF idle over the implementation state space (model checking)',
     },
     'C09': {
-        'rules': ['NMT'],
+        'rules': ['NMT', 'HB'],
         'exhaustive': True,
         'technique': 'decision-table extraction (NMT command x target x identifier, mode x service), must-facts at '
                      'every transmission site, who-may-write / who-may-send rules',
@@ -157,7 +163,7 @@ PROPERTIES = {
         'not_decided': 'sequence semantics beyond the step guards',
     },
     'C14': {
-        'rules': ['PDOCFG', 'RF6', 'PDO', 'RF14'],
+        'rules': ['PDOCFG', 'RF6', 'PDO', 'RF14', 'OBJWR'],
         'exhaustive': True,
         'technique': 'decision-table extraction: each PDO parameter Write function folded over valid bit x count x target '
                      'existence x access flags x new value classes; verdict = stored / refused-with-nothing-stored',
@@ -170,7 +176,7 @@ PROPERTIES = {
         'not_decided': 'interaction over write sequences beyond what the guards imply; activated PDO behaviour',
     },
     'C15': {
-        'rules': ['EMCY'],
+        'rules': ['EMCY', 'OBJWR'],
         'exhaustive': True,
         'technique': 'decision-table extraction over input classes, must-facts at the transmission site',
         'explanation': 'RF2: register update and EMCY frame only on a real transition (set/clear/reset, silent reset '
@@ -180,7 +186,7 @@ PROPERTIES = {
         'not_decided': 'register/counter consistency over call histories',
     },
     'C17': {
-        'rules': ['PARA'],
+        'rules': ['PARA', 'RF7'],
         'exhaustive': True,
         'technique': 'decision-table extraction over signature values, group counts, failure positions, enable flag and '
                      'driver byte counts',
@@ -192,37 +198,37 @@ PROPERTIES = {
         'not_decided': 'crash-point durability and RAM/NVM equality',
     },
     'C10': {
-        'rules': ['RF3', 'NMT', 'TMR', 'HB', 'RESET'],
+        'rules': ['RF3', 'NMT', 'TMR', 'HB', 'RESET', 'OBJWR'],
         'explanation': 'RF3 for CO_NMT.Tmr and every other handle (H1 no armed handle overwritten, H2 no handle keeps a deleted id, H5 a one-shot callback redefines its own expired handle on every path - a stale id is how another service deletes the heartbeat action); 1017h write rule (delete before create, cyclic with the written period, zero stops, refused write changes nothing); heartbeat frame template (700h+node id, one byte, state byte from the table); NMT gate of the producer; state-byte table both directions; timer action chain shape (RF11) because a dangling tail pointer delays or loses the heartbeat action; RF9a: the producer action is re-established by reset communication (known finding).',
         'not_decided': 'tick-exact heartbeat schedule (timer delta arithmetic, see C07)',
         'technique': 'timer-handle typestate dataflow with callee summaries and requirement propagation; decision-table extraction by partial evaluation of the handlers over input classes; must-facts at transmission sites',
     },
     'C11': {
-        'rules': ['RF3', 'HB', 'RF5', 'NMT'],
+        'rules': ['RF3', 'HB', 'RF5', 'NMT', 'OBJWR'],
         'explanation': 'RF3 for CO_HBCONS.Tmr (re-arm deletes first, deactivation deletes, no armed handle overwritten, the one-shot monitor redefines its handle); activation table (duplicate node refused, unlink by identity, event counter and last state reset together with the configuration, accepted path stores exactly the configuration); monitor timeout (event counter +1, callback with the node id, one-shot re-arm with the consumer time, last state untouched); frame check (delete-then-create re-arm, change callback iff the state differs, foreign identifiers ignored); last-state ownership (who may write CO_HBCONS.State); state-byte decode table for all defined bytes and a sample of undefined ones; RF5 on the consumer chain.',
         'not_decided': 'timeout timing; interleaving of monitor expiry with reception',
         'technique': 'timer-handle typestate dataflow with callee summaries and requirement propagation; decision-table extraction by partial evaluation of the handlers over input classes; must-facts at transmission sites',
     },
     'C12': {
-        'rules': ['RF3', 'RF6', 'PDO', 'RF14', 'PDOCFG'],
+        'rules': ['RF3', 'RF6', 'PDO', 'RF14', 'PDOCFG', 'OBJWR', 'DICT'],
         'explanation': 'Transmission gates of COTPdoTx by must-facts (NMT, COB-ID valid, inhibit); RF3 H1/H2/H4/H5 for EvTmr/InTmr with the verified invariant (Flags & I) == 0 <=> InTmr released; transmission-type tables of COTPdoReset; SYNC counting (one increment per recognised SYNC for each registered TPDO, type n sends when the counter reaches n and restarts, type 0 every SYNC); TX/RX SYNC-table separation; SYNC registration bit typestate (COSyncAdd / COSyncRemove pairing with the S flag); live event-time write table for every value including 0; RF6 on Map[]/Size[] and the SYNC tables; element consistency of pdo[num].',
         'not_decided': 'emission timing multiset; payload bytes beyond the mapping layout',
         'technique': 'timer-handle typestate dataflow with callee summaries and requirement propagation; decision-table extraction by partial evaluation of the handlers over input classes; must-facts at transmission sites; interval analysis of the mapping tables',
     },
     'C16': {
-        'rules': ['RF3', 'SYNC', 'PDO', 'RESET'],
+        'rules': ['RF3', 'SYNC', 'PDO', 'RESET', 'OBJWR'],
         'explanation': '1005h and 1006h write rules with rollback (value based), cache coherence of Sync.CobId / Sync.Cycle with the dictionary, refusal changes nothing, producer started / stopped exactly when bit 30 changes and after the cache is updated; recognition identifier == CobId & 1FFFFFFFh for every DLC; producer send gate and zero-length frame; cycle -> ticks path (cyclic timer, start == cycle); RF3 for CO_SYNC.Tmr; SYNC registration typestate; RF9a/RF3-H1/H3: producer and cached identifier after reset communication (known findings).',
         'not_decided': 'period exactness',
         'technique': 'timer-handle typestate dataflow with callee summaries and requirement propagation; decision-table extraction by partial evaluation of the handlers over input classes; must-facts at transmission sites',
     },
     'C19': {
-        'rules': ['RF3', 'CSDO', 'RF14'],
+        'rules': ['RF3', 'CSDO', 'RF14', 'RF7'],
         'explanation': 'Finalise-once shape (callback once, state IDLE, timeout action released: RF3 H1/H2/H4 State != BUSY => Tfer.Tmr released, H5); busy / invalid client refuses a request before any field is written; request frames (command byte, announced size); per-frame refresh and selection of a busy client with the matching identifier (for every configured client); response routing table per transfer type incl. abort for a foreign multiplexer; toggle discipline; download segment templates for every boundary of the remaining length (w = min(r,7), n = 7-w, c iff r <= 7); every store into the user buffer dominated by index < Tfer.Size (RF6e); timeout abort frame 0504 0000h; element consistency of csdo[n].',
         'not_decided': 'payload equality; timing of the timeout',
         'technique': 'timer-handle typestate dataflow with callee summaries and requirement propagation; decision-table extraction by partial evaluation of the handlers over input classes; must-facts at transmission sites; relational must-facts for the user-buffer bound',
     },
     'C20': {
-        'rules': ['RF3', 'RESET', 'LSS', 'EMCY', 'SDO'],
+        'rules': ['RF3', 'RESET', 'LSS', 'EMCY', 'SDO', 'PARA'],
         'explanation': 'RF3-H3: reset communication releases every instance of all seven timer handles (H1: no re-initialisation overwrites an armed handle); RF9a: every activation effect of CONodeInit (timer with callback X, consumer / producer activation, cached identifier, servers / clients enabled) is re-established by CONmtReset; RF9b: every service record initialised by CONodeInit is re-initialised or reset on every reset-communication path; RF9c: the timer pool reset is not reachable from CONmtReset (application timers survive); LSS: stored configuration loaded before servers and boot-up; SDO servers: COSdoReset resets every dispatcher-consulted field (RF12b); EMCY: the silent reset covers every active error number and every class counter. Thirteen known findings (reset-communication cluster).',
         'not_decided': 'trace equivalence with a fresh node',
         'technique': 'typestate release-on-reset with loop summaries over semantically recognised counted loops and list walks; init / reset effect agreement over the exactly resolved call graph; decision tables of the reset paths',
